@@ -20,7 +20,7 @@ from ..coqrun import cN, cZ, cbool, clist, cpair, copt
 from ..tok import S
 
 PID = "C10"
-COQ_HEADER = ("From Coq Require Import List NArith ZArith String.\nFrom SK Require Import lib.Tok lib.LGraph model.C10_Model.\n"
+COQ_HEADER = ("From Coq Require Import List NArith ZArith String.\nFrom SK Require Import lib.Tok lib.LGraph model.C10_Model model.C10_Text.\n"
               "Import ListNotations.\nLocal Open Scope string_scope.\nLocal Open Scope Z_scope.\n")
 SHARD = 60
 IMPL_TIMEOUT = 1500
@@ -297,6 +297,20 @@ def rec_obs(rec):
     return [[s, [list(e) for e in es]] for s, es in rec]
 
 
+def _text_obs(text):
+    """GMLToNX(text).transform() on an arbitrary text: the three graphs, [-1] for a self-loop (ITSGraph cannot unpack the
+    one-element frozenset), [] when parsing raises (tokens.index -> ValueError, tokens[i + 1] -> IndexError, int() ->
+    ValueError, self.graphs[current_section] -> KeyError)"""
+    from synkit.IO.gml_to_nx import GMLToNX
+    try:
+        l, r, i = GMLToNX(text).transform()
+    except ValueError as e:
+        return [[-1]] if "unpack" in str(e) else []
+    except (IndexError, KeyError):
+        return []
+    return [[gr_obs(l), gr_obs(r), gr_obs(i)]]
+
+
 def parsed_obs(text):
     """GMLToNX(text).transform(); a self-loop edge makes ITSGraph raise ValueError (u, v = tuple(frozenset((u, u)))):
     encoded as [-1], the model reports the same condition."""
@@ -512,12 +526,14 @@ def impl(case):
             c = get_rc(I) if core else I
             r, p = its_decompose(c)
             text = its_to_gml(to_nx(case["its"]), core=core, reindex=reindex, explicit_hydrogen=eh)
-            out.append([[[[gr_ord_obs(c), gr_ord_obs(r), gr_ord_obs(p), rec_obs(text_to_rec(text)), parsed_obs(text)], _py_its_ok(c)],
-                        True, all(d.get("typesGH") is not None for _, d in I.nodes(data=True))],
-                       all((d.get("hcount", 0) or 0) <= 0 for _, d in c.nodes(data=True))])
+            out.append([[[[[gr_ord_obs(c), gr_ord_obs(r), gr_ord_obs(p), rec_obs(text_to_rec(text)), parsed_obs(text)], _py_its_ok(c)],
+                         True, all(d.get("typesGH") is not None for _, d in I.nodes(data=True))],
+                        all((d.get("hcount", 0) or 0) <= 0 for _, d in c.nodes(data=True))], text])
         return out
     if k == "hist":
         return run_hist(case["script"])
+    if k == "text":
+        return _text_obs(case["text"])
     if k == "smart":
         from synkit.IO.chem_converter import smart_to_gml
         from synkit.Graph.ITS.its_construction import ITSConstruction
@@ -566,10 +582,12 @@ def coq_case(case):
             if any(c[0] and c[2] for c in case["cfgs"]) and _hh_without_std(case["its"]):
                 return None      # see _hh_without_std: outside the model's domain (oracle only)
             g = enc_gr(case["its"])
-            return "(let g := %s in %s)" % (g, clistL(["run_its4 g %s %s %s" % (cbool(a), cbool(b), cbool(c))
+            return "(let g := %s in %s)" % (g, clistL(["run_its5 g %s %s %s" % (cbool(a), cbool(b), cbool(c))
                                                         for a, b, c in case["cfgs"]]))
         if k == "hist":
             return coq_hist(case["script"])
+        if k == "text":
+            return "run_text2 %s" % enc_str(case["text"])
         if k == "smart":
             x = rxn_graphs(case["rsmi"])
             if x is None:
@@ -1489,7 +1507,7 @@ def oracle(case):
 
 def _rec_of(k, o):
     """the GML record inside one per-configuration observable"""
-    return o[0][0][0][-2] if k == "its" else o[0][0][-2]
+    return o[0][0][0][0][-2] if k == "its" else o[0][0][-2]
 
 
 def nontrivial(case, obs):
@@ -1502,7 +1520,7 @@ def nontrivial(case, obs):
         return any(a.get("hcount") or a.get("element") == "H" for _, a in case["g"]["nodes"])
     if k == "mol":
         return isinstance(obs, list) and obs != ["NOGRAPH"]
-    if k == "hist":
+    if k in ("hist", "text"):
         return True
     if k == "parse":
         return any(es for _, es in case["rec"])
@@ -1565,9 +1583,9 @@ def distribution(cases, obss):
                         key = "smart_roundtrip_domain:" + str(bool(oo[0][1] and oo[0][2] and oo[0][3] and oo[0][4]))
                         d["cfg_counts"][key] = d["cfg_counts"].get(key, 0) + 1
                     if k == "its":
-                        d["its_ok_exports"][str(bool(oo[0][0][1]))] = d["its_ok_exports"].get(str(bool(oo[0][0][1])), 0) + 1
+                        d["its_ok_exports"][str(bool(oo[0][0][0][1]))] = d["its_ok_exports"].get(str(bool(oo[0][0][0][1])), 0) + 1
                         if c["cfgs"][o.index(oo)][2]:
-                            key = "explicit_h_theorem_domain:" + str(bool(oo[0][0][1] and oo[1]))
+                            key = "explicit_h_theorem_domain:" + str(bool(oo[0][0][0][1] and oo[0][1]))
                             d["cfg_counts"][key] = d["cfg_counts"].get(key, 0) + 1
                     if len(rec) == 3:
                         ids = {e[1] for s in rec for e in s[1] if e[0] == 0}
@@ -1774,6 +1792,60 @@ def _rxn_hist_scripts(rsmi):
     ]
 
 
+def _rand_text(rng):
+    """a rule text as a user or another tool might write it: the rendering of a random record with its lines perturbed"""
+    lines = rec_to_text(_rand_record(rng), name=rng.choice(["rule", "r1", "left over", "my context", "x]"])).split("\n")
+    out = []
+    for ln in lines:
+        z = rng.random()
+        body = ln.strip()
+        if z < 0.45:
+            out.append(ln)
+        elif z < 0.55:
+            out.append(rng.choice(["", "\t", "  "]) + body.replace(" ", rng.choice(["  ", "\t", " \t "])) + rng.choice(["", " ", "\r", "\t"]))
+        elif z < 0.62:
+            out.append(ln)
+            out.append(rng.choice(["", "   ", "# a comment", "   # left as an exercise", "comment [", "   ]", "graph [", "\x0c"]))
+        elif z < 0.70 and body.startswith(("node", "edge")):
+            toks = body.split()
+            k = rng.choice(["drop-label", "drop-id", "swap", "extra", "noquote", "emptylabel", "badid", "keyword", "hash", "quote2"])
+            if k == "drop-label" and "label" in toks:
+                i = toks.index("label")
+                del toks[i:i + 2]
+            elif k == "drop-id":
+                toks = [t for t in toks if t not in ("id", "source")]
+            elif k == "swap" and toks[0] == "node" and len(toks) >= 7:
+                toks = toks[:2] + toks[4:6] + toks[2:4] + toks[6:]
+            elif k == "extra":
+                toks.insert(rng.randint(2, len(toks)), rng.choice(["x", "id", "label", "7", "weight 3"]))
+            elif k == "noquote" and "label" in toks:
+                i = toks.index("label")
+                toks[i + 1] = toks[i + 1].strip('"') or "C"
+            elif k == "emptylabel" and "label" in toks:
+                toks[toks.index("label") + 1] = '""'
+            elif k == "badid":
+                toks = [("3.0" if t.isdigit() and rng.random() < 0.5 else t) for t in toks]
+            elif k == "keyword" and "label" in toks:
+                toks[toks.index("label") + 1] = rng.choice(['"Cleft"', '"node"', '"edge"', '"right"', '"rule"'])
+            elif k == "hash" and "label" in toks:
+                toks[toks.index("label") + 1] = rng.choice(['"#"', '"#x"', '#', '"="', '":"'])
+            elif k == "quote2" and "label" in toks:
+                i = toks.index("label")
+                toks[i + 1] = rng.choice(['""C""', '"C', 'C"', '"\'C\'"', '"C"x'])
+            out.append("      " + " ".join(toks))
+        elif z < 0.78 and body.endswith("[") and not body.startswith("rule"):
+            out.append(rng.choice(["%s[", "  %s  [  ", "%s [ # note", "%sover [", "%s", "x%s ["]) % body.split()[0])
+        elif z < 0.84:
+            out.append(ln.replace("00", "0") if rng.random() < 0.5 else ln.replace(" id ", " id 00").replace(" source ", " source 0"))
+        elif z < 0.88:
+            pass                      # line lost
+        else:
+            out.append(ln)
+    if rng.random() < 0.1:
+        rng.shuffle(out)
+    return "\n".join(out) + rng.choice(["", "\n", "\n\n"])
+
+
 def _hist_cases(quick, rng):
     out = []
     corpus = _corpus()
@@ -1893,6 +1965,13 @@ def gen_cases(tier, rng):
     # ---- GML parser on arbitrary records, writer on arbitrary triples
     for k in range(150 if quick else 1000):
         cases.append(dict(kind="parse", rec=_rand_record(rng)))
+    # ---- GML TEXT: perturbed renderings through GMLToNX.transform, model = the tokeniser itself (model/C10_Text.v)
+    for k in range(250 if quick else 1500):
+        cases.append(dict(kind="text", text=_rand_text(rng)))
+    for j, t in enumerate(["", "\n", "]", "rule [\n]", "left [\nnode [ id 1 label \"C\" ]", "node [ id 1 label \"C\" ]",
+                           "rule [\n left [\n edge [ source 1 target 2 label \"#\" ]\n ]\n context [\n ]\n right [\n edge [ source 1 target 2 label \"-\" ] # broken\n ]\n]",
+                           "context [\n node [ id 1 label ]\n]", "right [\n node [ id label \"C\" ]\n]", "left [\n edge [ source 1 target 1 label \"-\" ]\n]"]):
+        cases.append(dict(kind="text", text=t, name="text-fixed/%d" % j))
     for k in range(120 if quick else 800):
         n = rng.randint(1, 6)
         its = _rand_its(rng, n, ["C", "N", "O", "H", "Cl"])
